@@ -27,7 +27,7 @@ LEVEL_NOTE = (
 TECHNIQUE = "property-based testing: metamorphic relations over Hypothesis random inputs + fresh-process determinism runs"
 DESIGN_REF = "DESIGN.md section 5 (C09)"
 RULE = (
-    "Hypothesis cases: binary input with 2..10 object leaves, <=8 species leaves, <=4 families, coherent costs, one of thl, ext_spfs, superdtl, "
+    "Hypothesis cases: binary input with 2..10 object leaves, <=8 species leaves (quick tier: ext_spfs <=8 object / <=6 species leaves), <=4 families, coherent costs, one of thl, ext_spfs, superdtl, "
     "base_spfs, base_uspfs and drawn transformation parameters.  Relations checked per case: R1 children reversed at drawn nodes of both trees "
     "(same cost, same set); R2 bijective renaming of object nodes, species and families (same cost, same set modulo the bijection); R3 outgroup "
     "species without objects above the root (same cost; same set if floss>0, else old set included and every extra solution maps a node to the "
@@ -43,10 +43,13 @@ SET_LIMIT_LEAVES = 6
 
 
 @st.composite
-def _case(draw):
+def _case(draw, tier="thorough"):
     algo = draw(st.sampled_from(ALGOS))
     labelled = algo != "thl"
-    case = draw(gen.rec_case(max_obj=10, max_sp=8, min_obj=2, costs="coherent", labelled=labelled, max_fam=4,
+    # ext_spfs at 9-10 object leaves x 8 species x 4 families without a prescribed root costs ~8 s per solve and a case
+    # needs 12 solves: the quick tier stops at 8 x 6 for that solver (measured: 4 such cases took 360 of 380 s of a shard)
+    max_obj, max_sp = (8, 6) if (tier == "quick" and algo == "ext_spfs") else (10, 8)
+    case = draw(gen.rec_case(max_obj=max_obj, max_sp=max_sp, min_obj=2, costs="coherent", labelled=labelled, max_fam=4,
                              prescribed_root=(algo in ("ext_spfs", "base_spfs")),
                              allow_inconsistent=(algo in ("ext_spfs", "base_spfs"))))
     case["_algo"] = algo
@@ -59,7 +62,7 @@ def _case(draw):
 
 
 def strategy(tier):
-    return _case()
+    return _case(tier)
 
 
 # --- transformations --------------------------------------------------------
@@ -248,7 +251,7 @@ def check(case):
 
 
 # --- fresh-process determinism ------------------------------------------------
-def collect_cases(n, seed):
+def collect_cases(n, seed, tier="thorough"):
     import hypothesis
     from hypothesis import HealthCheck, Phase, given, settings
 
@@ -256,7 +259,7 @@ def collect_cases(n, seed):
 
     @hypothesis.seed(seed * 7919 + 17)
     @settings(max_examples=n, database=None, deadline=None, suppress_health_check=list(HealthCheck), phases=[Phase.generate])
-    @given(_case())
+    @given(_case(tier))
     def grab(case):
         cases.append(case)
 
@@ -290,7 +293,7 @@ def _plain(s):
 
 def extra(tier, seed, stats, deadline):
     n = 60 if tier == "quick" else 600
-    cases = collect_cases(n, seed)
+    cases = collect_cases(n, seed, tier)
     fails = []
     with tempfile.TemporaryDirectory(prefix="verif-c09-") as tmp:
         path = os.path.join(tmp, "cases.json")
